@@ -11,7 +11,7 @@ RULE += (" Histories also contain interrupted or failing gwf invocations (hard k
 PROFILE = dict(
     nontrivial_probes=['backend_state_rows'],
     backends=["slurm", "slurm", "sge", "lsf", "local", "local"],
-    weights=dict(status=4, run=3, faulted=0.6, gwf_cancel=0.6, start=3, finish=3, sched_cancel=0.5, set_code=1.5, set_unpinned=0.3, purge=1,
+    weights=dict(status_concurrent=0.4, status=4, run=3, faulted=0.6, gwf_cancel=0.6, start=3, finish=3, sched_cancel=0.5, set_code=1.5, set_unpinned=0.3, purge=1,
                  acct_flush=1, foreign=0.7, pool_restart=0.4, modify_source=0.3, delete_output=0.3, advance=0.5),
     p_nested=0.1, p_job_ok=0.5, p_huge=0.01,
 )
